@@ -1,0 +1,25 @@
+//go:build verif
+
+package queue
+
+import "sync/atomic"
+
+// VerifActivate marks the queue active WITHOUT starting the queue-loop and loader
+// goroutines of Start(), so that a verification harness driving the queue from one
+// goroutine decides when a loader turn runs (VerifLoaderTurn). Stop() must not be
+// called on such a queue.
+func (queue *Queue) VerifActivate() {
+	queue.actLock.Lock()
+	defer queue.actLock.Unlock()
+	queue.active = true
+}
+
+// VerifLoaderTurn runs one turn of the loader goroutine body synchronously.
+func (queue *Queue) VerifLoaderTurn() {
+	queue.mayBeLoadFromStorage()
+}
+
+// VerifSwapState returns the overflow-to-disk bookkeeping of the queue.
+func (queue *Queue) VerifSwapState() (swappedToDisk bool, lastStoredMsgID uint64, lastMemMsgID uint64, queueLength int64) {
+	return queue.swappedToDisk, queue.lastStoredMsgID, queue.lastMemMsgID, atomic.LoadInt64(&queue.queueLength)
+}
